@@ -21,9 +21,7 @@ import json
 import os
 import pickle
 import shutil
-import sys
-import time
-from typing import Any, Dict, List, Optional, Tuple
+from typing import Any, Dict, List, Tuple
 
 from .. import tlc as _tlc
 from ..tlc import TLCError
@@ -32,13 +30,12 @@ from ..util import Def, make_cfg, pmap, split_defs
 MANIFEST = {
     "technique": "TLA+ specs of the appender (write-call interleavings on an O_APPEND file), the CI normalisation rule, the staging/back-pressure mechanism and numeric-suffix rotation model-checked exhaustively with TLC; every enumerated interleaving/case/history replayed on the real code (forced schedules through a blocking FileIO proxy, real LogStager under every limit, real rotate_one with interruptions at every file-system call); free-running thread/process runs validated against the appender spec by TLC",
     "text": "Exhaustive model checking of four small specifications — concurrent appenders at write-call granularity (one complete line per record, per-writer order, no loss/duplication), identity normalisation (only volatile fields of identity streams, idempotent), staging with a byte bound (drain sorted, flush order independent of the limit) and rotation/compaction histories with gaps, generations beyond N and interruptions between any two renames (keeps the newest N in order, loses only the oldest, compaction preserves records) — bound to the code by forcing every TLC interleaving on the real appender, replaying every enumerated case/history on normalize_for_identity, LogStager (documented drain/flush/retry loop), rotate_one, append_jsonl and rewrite_jsonl, and by TLC trace validation of the files produced by real 8-thread / 4-process runs with records up to 256 KiB.",
-    "note": "Small scope: 2-3 writers x 2-3 records for forced schedules; arrival sequences <= 5 over 12 keys (full key alphabet up to length 3-4, narrowed alphabets for length 4-5), sizes 1..3 units, limits 1..12; rotation histories <= 3-4 operations, backups 1..3. Line atomicity rests on the kernel's O_APPEND guarantee for a single write call on a local file system (observed: one call per record); short writes by the kernel are not injected. Interruption = process death or a failing call (no power-loss semantics). A real staging mechanism that flushes at other points than the documented one is reported as StagerConformance even when the ordering clauses still hold.",
+    "note": "Small scope: 2-3 writers x 2-3 records for forced schedules; arrival sequences <= 5 over 12 keys (full key alphabet up to length 3, narrowed key/size alphabets for length 4-5), sizes 1..3 units, limits 1..12; rotation histories <= 3-4 operations, backups 1..3. Line atomicity rests on the kernel's O_APPEND guarantee for a single write call on a local file system (observed: one call per record); short writes by the kernel are not injected. Interruption = process death or a failing call (no power-loss semantics). A real staging mechanism that flushes at other points than the documented one is reported as StagerConformance even when the ordering clauses still hold.",
 }
 
 FULL_STREAMS = ["t1.jsonl", "t2.jsonl", "t3_plan.jsonl", "t3_dialogue.jsonl", "t4.jsonl", "apply.jsonl", "health.jsonl",
                 "turn.jsonl", "scheduler.jsonl", "t3_reflection.jsonl", "c16_unknown_stream.jsonl"]
 
-REPO = os.environ.get("VERIF_REPO", "/repo")
 
 
 # ------------------------------------------------------------------------------------------------
@@ -57,6 +54,7 @@ class Jobs:
         if pid == 0:
             code = 1
             try:
+                os.setsid()          # own process group: abort() can take the JVM down with the child
                 try:
                     res = _tlc.run_tlc(module, cfg, self.run.workdir, name=name, workers=workers, timeout_s=timeout_s,
                                        defs=split_defs(consts), seed=self.run.seed, expect_violation=expect_violation)
@@ -92,8 +90,12 @@ class Jobs:
 
     def abort(self) -> None:
         for name, (pid, _o, _m) in list(self.pids.items()):
+            for kill in (lambda: os.killpg(pid, 9), lambda: os.kill(pid, 9)):
+                try:
+                    kill()
+                except Exception:
+                    pass
             try:
-                os.kill(pid, 9)
                 os.waitpid(pid, 0)
             except Exception:
                 pass
@@ -266,7 +268,8 @@ def stager_configs(q: bool) -> List[Tuple[str, Dict[str, Any]]]:
     return [
         ("A13", {"MinLen": 1, "MaxLen": 3, "Turns": [1, 2], "Ords": [1, 6, 9], "Slices": [0, 1], "Sizes": [1, 2, 3], "Limits": lim}),
         ("A13b", {"MinLen": 1, "MaxLen": 3, "Turns": [1, 2], "Ords": [3, 10, 99], "Slices": [0, 1], "Sizes": [1, 3], "Limits": lim}),
-        ("A4", {"MinLen": 4, "MaxLen": 4, "Turns": [1, 2], "Ords": [2, 5, 8], "Slices": [0, 1], "Sizes": [1, 2], "Limits": lim}),
+        ("A4a", {"MinLen": 4, "MaxLen": 4, "Turns": [1, 2], "Ords": [2, 5, 8], "Slices": [0, 1], "Sizes": [1], "Limits": lim}),
+        ("A4b", {"MinLen": 4, "MaxLen": 4, "Turns": [1, 2], "Ords": [5, 8], "Slices": [0, 1], "Sizes": [1, 2], "Limits": lim}),
         ("B5", {"MinLen": 5, "MaxLen": 5, "Turns": [1, 2], "Ords": [4, 7], "Slices": [0], "Sizes": [1, 2], "Limits": lim}),
         ("C5", {"MinLen": 5, "MaxLen": 5, "Turns": [1, 2], "Ords": [6], "Slices": [0, 1], "Sizes": [1, 2], "Limits": lim}),
         ("D5", {"MinLen": 5, "MaxLen": 5, "Turns": [1], "Ords": [1, 6, 9], "Slices": [0], "Sizes": [1, 3], "Limits": lim}),
